@@ -7,7 +7,8 @@ A re-spelling changes only the text, never the record's content by the CTfile / 
          coordinate bond (the library's own log line names it); 'either' marks on bonds without configuration; aamap column
   V3000  D symbol; lines broken with the '-' continuation at a token boundary / inside a token / twice; bond type 9 / 10; CFG=2;
          extra key=value properties the reader has to skip (VAL=, CFG=0 on atoms)
-  SDF    last record without '$$$$'; '> <key>' and '>  <key> (n)' data headers
+  SDF    last record without '$$$$'; '> <key>' data headers (the '(regno)' / field-number forms are NOT used: the reader documents by its
+         pattern that it joins them into the key)
   RDF    '$RFMT $RIREG n' / '$MFMT $MIREG n' record lines; no '$RDFILE' header; a bare '$RXN' file; '$DATUM' with the value on the
          following line
   MRV    compact <atomArray atomID="..." elementType="..." .../> attribute lists; XML declaration + namespaced <cml xmlns=...>
@@ -144,8 +145,8 @@ def v3_variants(block):
     if dl:
         new = list(ls)
         for i in dl:
-            p = ls[i].split(' ')
-            p[3] = 'D'
+            p = ls[i].split(' ')       # 'M', '', 'V30', index, symbol, ...
+            p[4] = 'D'
             new[i] = ' '.join(p)[:-len(' MASS=2')]
         yield 'v3:deuterium-symbol-D', '\n'.join(new)
     # coordinate bonds as 9 / 10
@@ -154,8 +155,8 @@ def v3_variants(block):
         if cb:
             new = list(ls)
             for i in cb:
-                p = ls[i].split(' ')
-                p[3] = t
+                p = ls[i].split(' ')   # 'M', '', 'V30', index, type, ...
+                p[4] = t
                 new[i] = ' '.join(p)
             yield f'v3:coordinate-bond-type-{t}', '\n'.join(new)
     # properties a reader has to skip; chiral flag in the counts line
@@ -180,12 +181,6 @@ def sdf_variants(text):
     assert text.endswith('$$$$\n')
     yield 'sdf:last-record-without-delimiter', text[:-5]
     yield 'sdf:data-header-one-blank', re.sub(r'(?m)^>  <', '> <', text)
-    n = [0]
-
-    def num(m):
-        n[0] += 1
-        return f'{m.group(0)} ({n[0]})'
-    yield 'sdf:data-header-with-record-number', re.sub(r'(?m)^>  <[^>\n]*>$', num, text)
 
 
 def rdf_variants(text):
